@@ -6,6 +6,8 @@ cd "$(dirname "$0")/.."
 export GOFLAGS=-mod=mod GOPROXY=off GOSUMDB=off GOTOOLCHAIN=local
 GO=/opt/veriftools/go1.26.8/bin/go
 (cd sim/tool && $GO build -o ../../bin/check ./cmd/check) || exit 2
+# a snapshot of /repo's HEAD when started with `vp run --with-repo`
+if [ -n "${VP_RUN_REPO:-}" ]; then export VERIF_REPO=$VP_RUN_REPO; echo "using repo snapshot $VERIF_REPO"; fi
 SEEDS=${@:-7777}
 for seed in $SEEDS; do
   for p in C04 C01 C02 C05 C06 C15 C03 C13 C10; do
